@@ -96,7 +96,7 @@ type Decoded struct {
 	OffUDP     int
 	OffTCP     int
 	OffPayload []int // acceptable start offsets of Frame.Payload()
-	End        int   // end of the decoded packet inside the frame: IPv4 total length (bytes after it are link layer padding), else len(frame)
+	End        int   // end of the decoded packet inside the frame: IPv4 total length / IPv6 40+payload length (bytes after it are link layer padding), else len(frame)
 	Proto      int   // IP protocol / next header, -1 if none
 }
 
@@ -223,7 +223,10 @@ func Decode(f []byte) Decoded {
 		d.SrcIP = netip.AddrFrom16([16]byte(p[8:24]))
 		d.DstIP = netip.AddrFrom16([16]byte(p[24:40]))
 		d.Proto = int(p[6])
-		return decodeL4(f, hl+40, d)
+		// RFC 8200: the packet ends at 40 + payload length. Whether a frame with bytes after that is accepted is left open
+		// (DontCare above), but when it is, those bytes are link layer padding and belong to no upper layer view.
+		d.End = hl + 40 + pl
+		return decodeL4(f[:hl+40+pl], hl+40, d)
 	case 0x0806:
 		d.PayloadID = PARP
 		if len(p) < 28 {
